@@ -13,9 +13,10 @@ TRANSLATORS = [t8_codec.translate]
 PROPERTY_FILE = 'Properties/C17.v'
 THEOREMS = [
     'C17_check_entry_sound', 'C17_sweep_slice_sound', 'C17_records_cover_dictionary',
-    'C17_truth_table_is_semantics',
-    'C17_lookup_returns_requested_function', 'C17_lookup_none_only_if_absent',
-    'C17_model_lookup_agrees_and_is_minimal',
+    'C17_truth_table_is_semantics', 'C17_swept_file_is_db_ok',
+    'C17_lookup_returns_requested_function', 'C17_lookup_none_only_if_absent', 'C17_lookup_complete_statement',
+    'C17_model_lookup_never_raises',
+    'C17_model_lookup_agrees_and_is_minimal', 'C17_model_lookup_minimal_among_all_completions',
 ]
 PARTIAL = {}
 LEVEL_TEXT = (
